@@ -4,6 +4,11 @@
 
 mod c05;
 mod c06;
+mod mini;
+
+// Every SelectExecutor allocates a zeroed 10 MiB arena per query; pool those blocks (see vcore::bigalloc)
+#[global_allocator]
+static GLOBAL: vcore::bigalloc::ArenaCache = vcore::bigalloc::ArenaCache;
 
 fn usage() -> ! {
     eprintln!("usage: metacheck check <C05|C06> <quick|thorough> | metacheck replay <path>");
@@ -58,6 +63,10 @@ fn main() {
             }
         },
         "replay" if args.len() >= 3 => replay(&args[2]),
+        "bench" => {
+            c05::bench(args.get(2).and_then(|s| s.parse().ok()).unwrap_or(1));
+            0
+        }
         _ => usage(),
     };
     std::process::exit(code);
